@@ -71,6 +71,18 @@ def images(tier, rnd):
         r = res[str(i)]
         if r["status"] == "ok" and r["out"] and r["out"].get("ok"):
             out.append((tag, common.unhex(r["out"]["file"]), inp, kind, files))
+    # image files that end early: the header announces more words than the file carries (the loader reads what is there;
+    # the rest of the announced range is memory not covered by the file and reads as zero), with and without a debug section
+    base = [im for im in out if im[3] != "loop"]
+    for im in base[:(40 if tier == "quick" else 1500)]:
+        tag, blob, inp, kind, files = im
+        words = int.from_bytes(blob[:4], "little")
+        if words < 3 or 4 + 4 * words > len(blob):
+            continue
+        cuts = {4, 4 + 4 * words, 4 + 4 * rnd.randrange(1, words), 4 + 4 * rnd.randrange(1, words) + rnd.randrange(1, 4),
+                4 + 4 * (words - 1) + rnd.randrange(1, 4)}
+        for cut in sorted(cuts):
+            out.append(("%s:cut%d" % (tag, cut), blob[:cut], inp, "rbw", files))
     nasm = 60 if tier == "quick" else 2000
     asms = [asm_rbw(rnd) for _ in range(nasm)]
     res = common.run_harness(hasm, [(i, {"src": s}) for i, s in enumerate(asms)], args=["cases"], tag="c12a")
@@ -213,7 +225,7 @@ def run(tier, replay=None):
             for trace in ((0, 1) if kind != "loop" else (0,)):
                 mc = rnd.choice([1, 10, 1000, 100000]) if kind == "loop" else 0
                 fields = {"file": blob, "input": inp, "fill": f, "fillseed": rnd.randrange(1 << 30), "maxcycles": mc,
-                          "trace": trace, "hardlimit": 400000}
+                          "trace": trace, "hardlimit": 60000 if ":cut" in tag else 400000}
                 for k, data in files.items():
                     fields["fin%d" % k] = data
                 cases.append((len(cases), fields))
@@ -230,8 +242,11 @@ def run(tier, replay=None):
             v.violation("inproc:abnormal", {"image": tag, "fill": fill, "status": r["status"], "err": r["err"][-300:]})
             continue
         o = r["out"]
-        if o["ended"] == "left-range":
-            leaves_range.add(i)      # accesses outside the 200000-word memory: hexsim has no defined behaviour there (C02's range)
+        if o["ended"] == "left-range" or (o["ended"] == "hardlimit" and kind != "loop"):
+            # accesses outside the 200000-word memory: hexsim has no defined behaviour there (C02's range).  A run that is
+            # still going at the in-process limit (e.g. a truncated image executing zero words towards the end of memory)
+            # is not known to stay inside either, so it is not handed to the executable, which runs on.
+            leaves_range.add(i)
         rbw_total += o["reads_before_write"]
         if o["ended"] == "mismatch":
             # with clean (zero) storage a divergence cannot come from uninitialised memory
@@ -259,7 +274,7 @@ def run(tier, replay=None):
     nst = 6 if tier == "quick" else 8
     states = host_states(rnd, nst)
     nexe = 1000 if tier == "quick" else 30000
-    v.count("images_leaving_the_memory_range_excluded", len(leaves_range))
+    v.count("images_leaving_the_memory_range_or_not_finishing_excluded", len(leaves_range))
     imgs = [im for i, im in enumerate(imgs) if i not in leaves_range]
     sel = [im for im in imgs if im[3] != "defined" or im[0].startswith("io")] + [im for im in imgs if im[3] == "defined" and not im[0].startswith("io")]
     sel = sel[:max(50, nexe // nst)]
